@@ -31,6 +31,7 @@ import os
 import re
 import signal
 import sys
+import time
 import traceback
 import warnings
 import zlib
@@ -38,7 +39,7 @@ from collections import Counter
 
 import numpy as np
 
-from harness.common import Check, ddmin
+from harness.common import VERIF, Check, ddmin
 
 SCALE = 1024.0
 NWORKERS = 8
@@ -126,13 +127,17 @@ def gate_key(gate):
 # ------------------------------------------------------------ generation
 def gen_desc(rng: random.Random, pname: str, thorough: bool) -> dict:
     """One seeded case: a JSON-able description of input circuit + pass."""
-    big = thorough and rng.random() < 0.25
+    big = thorough and rng.random() < 0.08
     if big:
         n = rng.randint(8, 20)
         nsteps = rng.randint(40, 900)
     else:
         n = rng.choice([2, 3, 3, 4, 4, 5, 5, 6, 6, 7, 8, 9, 10, 12])
         nsteps = rng.choice([1, 2, 3, 5, 8, 12, 20, 30, 50, 80, 120])
+    dense = (not big) and rng.random() < 0.12
+    if dense:       # small circuits crowded with barrier-like operations
+        n = rng.randint(3, 5)
+        nsteps = rng.randint(4, 14)
     qutrits = rng.random() < 0.2
     radixes = [3 if qutrits and rng.random() < 0.4 else 2 for _ in range(n)]
     k = rng.choice([2, 2, 3, 3, 3, 4, 4, 5, 6])
@@ -143,7 +148,7 @@ def gen_desc(rng: random.Random, pname: str, thorough: bool) -> dict:
     refuses = pname in REFUSES_WIDE
     # gates wider than the block size: rare for refusing passes
     allow_wide = (not refuses) or rng.random() < 0.06
-    pbar = rng.choice([0.0, 0.0, 0.05, 0.1, 0.2])
+    pbar = 0.35 if dense else rng.choice([0.0, 0.0, 0.05, 0.1, 0.2])
     w3 = rng.choice([0.0, 0.15, 0.3])
     w4 = rng.choice([0.0, 0.0, 0.05])
     pins = rng.choice([0.0, 0.0, 0.1, 0.3])
@@ -399,8 +404,10 @@ def oracle(before_lv, before_radixes, before_depth0, c, k):
                 break
     # barrier-like ops that were outside blocks (depth 0) before must stay so
     inside = [x for x in after if x[4] and x[3] > 0]
-    if inside and not any(x[4] and x[3] > 0 for x in before_lv):
-        v['barrier-absorbed'] = f'{inside[0][0][0]} at {inside[0][2]}'
+    if inside:
+        v['_barrier-inside'] = '1'      # what the Lean clause (4) looks at
+        if not any(x[4] and x[3] > 0 for x in before_lv):
+            v['barrier-absorbed'] = f'{inside[0][0][0]} at {inside[0][2]}'
     wide = []
     unblocked = []
     for op in c:
@@ -444,7 +451,7 @@ def expected_clause(v, strict, barriers_on):
         return 'violated block-width'
     if 'ops-changed' in v or 'order-changed' in v:
         return 'violated timelines'
-    if barriers_on and 'barrier-absorbed' in v:
+    if barriers_on and '_barrier-inside' in v:
         return 'violated barrier-in-block'
     if 'broken-circuit' in v:
         return 'violated inv'
@@ -452,7 +459,11 @@ def expected_clause(v, strict, barriers_on):
 
 
 # --------------------------------------------------------------- one case
-PASS_TIMEOUT = 60     # seconds per pass run (surround() is exponential in k)
+# user-CPU seconds a pass may burn on one circuit before it counts as "does not
+# return" (Circuit.surround is exponential in the block size: the generator keeps
+# Greedy/Clustering inputs small)
+PASS_CPU_BASE = 60.0
+PASS_CPU_PER_OP = 1.0
 
 
 class CaseTimeout(BaseException):
@@ -506,14 +517,19 @@ def run_case(desc, want_lines=True, trace=False):
     res['k_eff'] = k_eff
     dim = int(np.prod(desc['radixes']))
     u_before = None
-    if (dim <= 32 or (dim <= 256 and nops <= 12)) and not has_pl:
+    if (dim <= 32 or (dim <= 64 and nops <= 60)
+            or (dim <= 256 and nops <= 8)) and not has_pl:
         try:
             u_before = before.get_unitary().numpy
         except Exception:
             u_before = None
     events = None
-    signal.signal(signal.SIGALRM, _on_alarm)
-    signal.alarm(PASS_TIMEOUT)
+    # CPU-time budget of the pass (user time of this process: independent of
+    # the load of the machine); typical runs need well under a second
+    budget = PASS_CPU_BASE + PASS_CPU_PER_OP * nops
+    signal.signal(signal.SIGVTALRM, _on_alarm)
+    signal.setitimer(signal.ITIMER_VIRTUAL, budget)
+    cpu0 = time.process_time()
     try:
         if trace and pname == 'QuickPartitioner':
             from harness import c08_quick
@@ -521,10 +537,10 @@ def run_case(desc, want_lines=True, trace=False):
         else:
             run_pass(pname, k, arg2, c, desc['npseed'])
     except CaseTimeout:
-        res['timeout'] = True
+        res['timeout'] = budget
         return res
     except Exception as e:
-        signal.alarm(0)
+        signal.setitimer(signal.ITIMER_VIRTUAL, 0)
         ref = REFUSES_WIDE.get(pname)
         msg = str(e)
         if ref and isinstance(e, ref[0]) and ref[1] in msg and maxw_all > k:
@@ -536,9 +552,12 @@ def run_case(desc, want_lines=True, trace=False):
             return res
         res['exc'] = [type(e).__name__, slug(msg), msg[:300],
                       traceback.format_exc()[-1200:]]
+        res['excsig'] = (f'{type(e).__name__}:{slug(msg)}:'
+                         + ('barrier-like-input' if has_bar else 'plain-input'))
         return res
     finally:
-        signal.alarm(0)
+        signal.setitimer(signal.ITIMER_VIRTUAL, 0)
+    res['cpu'] = time.process_time() - cpu0
     strict, aware = PASS_INFO[pname]
     v = oracle(before_lv, before.radixes, list(before), c, k_eff)
     if u_before is not None and 'radixes' not in v:
@@ -581,6 +600,9 @@ def seed_of(base: int, i: int) -> int:
     return zlib.crc32(f'c08:{base}:{i}'.encode()) & 0x7fffffff
 
 
+_EXHAUSTED: Counter = Counter()     # per worker process
+
+
 def worker(args):
     base, idxs, thorough, names = args
     warnings.simplefilter('ignore')
@@ -591,7 +613,15 @@ def worker(args):
         pname = names[i % len(names)]
         try:
             desc = gen_desc(rng, pname, thorough)
+            if _EXHAUSTED[pname] >= 2:
+                # this pass keeps burning its whole CPU budget (reported):
+                # do not spend the rest of the run waiting for it
+                out.append({'pass': pname, 'skip': 'pass-keeps-timing-out',
+                            'i': i, 'desc': desc})
+                continue
             res = run_case(desc, trace=TRACE)
+            if res.get('timeout'):
+                _EXHAUSTED[pname] += 1
             res['desc'] = res.pop('desc_override', desc)
         except Exception as e:      # harness bug: surface it
             res = {'harness_error': repr(e) + traceback.format_exc()[-2000:],
@@ -616,7 +646,7 @@ def shrink(desc, flag, budget=150):
         except Exception:
             return False
         if flag.startswith('exception:'):
-            return 'exc' in r and flag == f'exception:{r["exc"][0]}:{r["exc"][1]}'
+            return 'exc' in r and flag == f'exception:{r["excsig"]}'
         return flag in r.get('verdicts', {})
     steps = list(desc['steps'])
     if not fails(steps):
@@ -677,7 +707,7 @@ def run(ck: Check):
     names = list(PASS_INFO)
     if os.environ.get('C08_PASSES'):          # development aid
         names = os.environ['C08_PASSES'].split(',')
-    ncases = 40000 if thorough else int(os.environ.get("C08_N", 800))
+    ncases = int(os.environ.get("C08_N", 12000 if thorough else 800))
     if ck.replay_path:
         rp = json.loads(open(ck.replay_path).read())
         descs = [rp['replay']['desc']]
@@ -689,12 +719,20 @@ def run(ck: Check):
             results.append(r)
     else:
         gates()
+        results = []
+        for f in sorted((VERIF / 'corpus' / 'C08').glob('*.json')):
+            for d in json.loads(f.read_text()):
+                r = run_case(d, trace=TRACE)
+                r['desc'] = r.pop('desc_override', d)
+                r['i'] = -1
+                results.append(r)
+        ck.coverage['corpus_cases'] = len(results)
         chunk = 40
         jobs = [(ck.seed, list(range(s, min(ncases, s + chunk))), thorough,
                  names) for s in range(0, ncases, chunk)]
         ctx = mp.get_context('fork')
         with ctx.Pool(NWORKERS) as pool:
-            results = [r for part in pool.imap(worker, jobs) for r in part]
+            results += [r for part in pool.imap(worker, jobs) for r in part]
     ck.coverage['t_workload_s'] = round(time.time() - t0, 1)
     process(ck, results)
     ck.coverage['t_total_s'] = round(time.time() - t0, 1)
@@ -747,14 +785,24 @@ def process(ck: Check, results):
             ck.bump('refused', pname)
             continue
         if r.get('timeout'):
-            ck.bump('timeouts', f'{pname} k={r["k"]} n={r["n"]} ops={r["nops"]}')
+            ck.bump('timeouts', pname)
+            sig = f'no-result:{pname}:cpu-budget-exhausted'
+            desc = r['desc']
+            ck.violation(
+                sig, f'{pname}(block_size={r["k"]}) did not return within '
+                f'{r["timeout"]:.0f} s of CPU time on a circuit of '
+                f'{r["nops"]} operations on {r["n"]} qudits (typical: < 1 s)',
+                {'desc': desc, 'python': describe(desc)})
             continue
+        if 'cpu' in r:
+            m = ck.coverage.setdefault('max_pass_cpu_s', {})
+            m[pname] = round(max(m.get(pname, 0.0), r['cpu']), 2)
         if 'exc' in r:
             et, sl, msg, tb = r['exc']
-            sig = f'exception:{pname}:{et}:{sl}'
+            sig = f'exception:{pname}:{r["excsig"]}'
             desc = r['desc']
             if not is_known(ck, sig):
-                desc = shrink(desc, f'exception:{et}:{sl}')
+                desc = shrink(desc, f'exception:{r["excsig"]}')
             ck.violation(
                 sig, f'{pname}(block_size={r["k"]}) raised {et}: {msg} on a '
                 'valid input instead of returning a circuit',
@@ -763,7 +811,7 @@ def process(ck: Check, results):
             continue
         v = r['verdicts']
         for flag, detail in v.items():
-            if flag == 'unblocked':
+            if flag == 'unblocked' or flag.startswith('_'):
                 continue
             if flag == 'unitary-changed' and (
                     'ops-changed' in v or 'order-changed' in v):
@@ -788,7 +836,7 @@ def process(ck: Check, results):
         for li, ln in enumerate(r['lines']):
             lines.append(ln)
             owners.append((ri, li - r['nprefix']))
-    outs = ck.driver('partition', lines)
+    outs = ck.driver('partition', lines) if lines else []
     if len(outs) != len(lines):
         raise RuntimeError(f'driver answered {len(outs)} of {len(lines)}')
     for (ri, ei), ln, out in zip(owners, lines, outs):
@@ -812,6 +860,9 @@ def process(ck: Check, results):
             pname = r['pass']
             kind = ln.split(' ')[0]
             sig = f'model-disagrees:{pname}:{kind}:{out}/{exp}'
+            if kind == 'quick':
+                # "illegal <move index>" / "stuck <n>" / "groups-differ"
+                sig = f'quickspec-{out.split(" ")[0]}:{pname}'
             strict = PASS_INFO[pname][0]
             if out == 'violated unblocked-op' or (
                     strict and 'unblocked' in r['verdicts']):
